@@ -17,16 +17,21 @@ import (
 
 // rx1Rows adds one case per uplink channel of b, which is the object of configuration c after ops.
 func rx1Rows(s *cases.Set, c bandcfg.Config, b bandLike, ops []bandcfg.ChanOp, errs []bool, label, kind string) {
+	rx1RowsT(s, c, b, bandcfg.ChanOps(ops), bandcfg.Bools(errs), bandcfg.ChanOpsReplay(ops), label, kind)
+}
+
+// rx1RowsT: the history is given as printed Gallina terms (compact forms for long histories) and
+// as replay description.
+func rx1RowsT(s *cases.Set, c bandcfg.Config, b bandLike, opsTerm, errsTerm string, history interface{}, label, kind string) {
 	idxs := b.GetUplinkChannelIndices()
 	n := len(idxs)
-	opsTerm, errsTerm := bandcfg.ChanOps(ops), bandcfg.Bools(errs)
 	for _, ch := range idxs {
 		ch := ch
 		key := fmt.Sprintf("rx1hist:%s:ops=%s:ch=%d", c.Key(), label, ch)
 		u, err := b.GetUplinkChannel(ch)
 		if err != nil {
 			s.Fail(cases.GoFail{Key: key, What: "GetUplinkChannelIndices lists an index that GetUplinkChannel rejects: " + err.Error(),
-				Replay: map[string]interface{}{"name": string(c.Name), "history": bandcfg.ChanOpsReplay(ops), "channel": ch}})
+				Replay: map[string]interface{}{"name": string(c.Name), "history": history, "channel": ch}})
 			continue
 		}
 		var j int
@@ -50,7 +55,7 @@ func rx1Rows(s *cases.Set, c bandcfg.Config, b bandLike, ops []bandcfg.ChanOp, e
 			Term: fmt.Sprintf("CRx1ChHist %d %s %s %d%%Z %s %d%%Z %s %s %s", c.Index, opsTerm, errsTerm, n, cq.Z(int64(ch)), u.Frequency, oIdx, oDown, oFreq),
 			Key:  key, Kind: kind, Nontrivial: true,
 			Replay: map[string]interface{}{"api": "b := GetConfig(name, repeater, dwell); history on b (no RX1 lookup on b before the history; lookups for all channels after each part); then for uplink channel ch: GetRX1ChannelIndexForUplinkChannelIndex(ch) -> j, GetDownlinkChannel(j).Frequency, GetRX1FrequencyForUplinkFrequency(GetUplinkChannel(ch).Frequency)",
-				"name": string(c.Name), "repeater": c.Repeater, "dwell400ms": c.Dwell, "history": bandcfg.ChanOpsReplay(ops), "channel": ch,
+				"name": string(c.Name), "repeater": c.Repeater, "dwell400ms": c.Dwell, "history": history, "channel": ch,
 				"uplink_frequency": u.Frequency, "observed_rx1_index": oIdx, "observed_downlink_frequency_at_rx1_index": oDown, "observed_rx1_frequency": oFreq}})
 	}
 }
